@@ -153,11 +153,19 @@ def v3(ctx):
     tr = [c for c in b.calls if c.callee and c.callee.name == "try_insert_compatible_slotmap_bij"]
     ctx.floor("slot-pair insertions", len(tr), 1)
     for c in tr:
-        z = b.role_of_operand(c.args[0])
+        # arguments by type (the helper may be a free function (x, y, &mut map) or a method of the map)
+        def aty(a):
+            pl_ = mir.op_place(a)
+            return b.local_ty(pl_["l"]) if pl_ is not None and not pl_["p"] else ""
+        slot_args = [a for a in c.args if aty(a) == "slot::Slot"]
+        map_args = [a for a in c.args if "slotmap::SlotMap" in aty(a)]
+        if not slot_args or not map_args:
+            slot_args, map_args = [c.args[0]], [c.args[2]] if len(c.args) > 2 else [c.args[-1]]
+        z = b.role_of_operand(slot_args[0])
         ok = role_mentions_call(z, "zip") and role_mentions_call(z, "all_slot_occurrences")
         ctx.check(ok, "pairs-from-zip-of-all-occurrences", "slot pairs come from zipping all_slot_occurrences of variant and pattern node",
                   "slot pairs are %s" % role_str(z)[:140], where_of(b, c.bb))
-        m = strip_role(b.role_of_operand(c.args[2]))
+        m = strip_role(b.role_of_operand(map_args[0]))
         ctx.check(role_mentions_field(m, "partial_slotmap"), "into-partial-slotmap", "pairs are inserted into the state's partial_slotmap", "pairs go into %s" % role_str(m), where_of(b, c.bb))
     # a failed insertion abandons the variant
     for sb in b.switch_blocks():
